@@ -6,3 +6,21 @@ pub mod prune;
 pub mod hdr;
 pub mod shwap;
 pub mod fraud;
+pub mod peers;
+pub mod pool;
+pub mod exec;
+pub mod subs;
+pub mod hxc;
+pub mod hxs;
+
+/// A peer id that depends only on `index` (not on the run's seed or entropy stream), so that
+/// traces of different runs name peers consistently.
+pub(crate) fn fixed_peer_id(index: u64) -> libp2p::PeerId {
+    let mut rng = crate::kernel::rng::Xoshiro::new(crate::kernel::rng::mix(&[0x9EE2_1D, index]));
+    let mut digest = [0u8; 32];
+    rng.fill(&mut digest);
+    // sha2-256 multihash of an (unknown) public key
+    let mh = libp2p::multihash::Multihash::<64>::wrap(0x12, &digest).expect("32-byte digest fits");
+    libp2p::PeerId::from_multihash(mh).expect("sha2-256 multihash is a valid peer id")
+}
+pub mod wire;
